@@ -722,7 +722,50 @@ func (c *Check) timeWindow(rule string) {
 		}
 		r := pa.Ret[0]
 		af := pa.AllFacts()
-		if strings.HasSuffix(r.Op, ".Discount") {
+		if strings.HasSuffix(r.Op, ".Discount") && len(r.A) == 1 && stripConv(r.A[0]).Op == "res" {
+			// the promotion is chosen by a selecting helper (promotion, found): the discount is returned under the helper's
+			// found result, and the helper reports found exactly for a promotion whose window contains the time
+			sel := stripConv(r.A[0])
+			call := stripConv(sel.A[1])
+			g := c.P.FuncNamed(call.Op)
+			okSel := g != nil && g.Body != nil && len(g.Res) == 2 && af.Holds(mk("res", atom("1"), sel.A[1]), true)
+			if okSel {
+				tP := ""
+				for i, pr := range g.Params {
+					if typeName(pr.Type()) == "time.Time" {
+						tP = fmt.Sprintf("P%d", i)
+					}
+				}
+				nT := 0
+				for _, pb := range c.P.PathsOf(g) {
+					if len(pb.Ret) != 2 {
+						okSel = false
+						continue
+					}
+					if pb.Ret[1].IsAt("#false") || pb.Ret[1].IsAt("zero") {
+						continue
+					}
+					el := stripConv(pb.Ret[0])
+					bf := pb.AllFacts()
+					start := Fact{T: mk("time.Time.Before", atom(tP), field("PromotionByTime", "StartTime", el)), Neg: true}
+					end := Fact{T: mk("time.Time.Before", atom(tP), field("PromotionByTime", "EndTime", el))}
+					startAlt := Fact{T: mk("time.Time.After", field("PromotionByTime", "StartTime", el), atom(tP)), Neg: true}
+					endAlt := Fact{T: mk("time.Time.After", field("PromotionByTime", "EndTime", el), atom(tP))}
+					if pb.Ret[1].IsAt("#true") && el.Op == "elem" && tP != "" && (bf.Has(start) || bf.Has(startAlt)) && (bf.Has(end) || bf.Has(endAlt)) {
+						nT++
+					} else {
+						okSel = false
+						problems = append(problems, g.Name+" reports a promotion as found under "+strings.Join(bf.Sorted(), " ∧ "))
+					}
+				}
+				okSel = okSel && nT >= 1
+			}
+			if okSel {
+				okDisc = true
+			} else if g == nil || len(problems) == 0 {
+				problems = append(problems, "a discount is returned under "+strings.Join(af.Sorted(), " ∧ "))
+			}
+		} else if strings.HasSuffix(r.Op, ".Discount") {
 			el := r.A[0]
 			start := Fact{T: mk("time.Time.Before", atom("P1"), field("PromotionByTime", "StartTime", el)), Neg: true}
 			end := Fact{T: mk("time.Time.Before", atom("P1"), field("PromotionByTime", "EndTime", el))}
